@@ -345,6 +345,20 @@ impl Debugee {
         Ok(event)
     }
 
+    /// Execute one instruction of a thread, see [`Tracer::single_step`].
+    /// The instruction may be the one that ends the process.
+    pub fn single_step(
+        &mut self,
+        tcx: TraceContext,
+        pid: Pid,
+    ) -> Result<Option<StopReason>, Error> {
+        let result = self.tracer.single_step(tcx, pid);
+        if let Err(Error::ProcessExit(_)) = result {
+            self.execution_status = ExecutionStatus::Exited;
+        }
+        result
+    }
+
     /// Interrupt (pause) execution of the whole debugee process.
     ///
     /// This performs a group-stop across all tracees using `PTRACE_INTERRUPT`.
